@@ -9,10 +9,11 @@
      NRenameDir       rename whose source is a directory
      NStaleHandle     use of a handle whose opening path no longer names its inode
      NRecreate        since the last crash:
-                        (a) creation of a file at a name a file left (unlink / rename) while it had unsynced
-                            data, or
+                        (a) creation, without truncation, of a file at a name a file left (unlink / rename)
+                            while it had unsynced data, or
                         (b) while that removal is unflushed (no sync_dir of the parent - of one of the two
-                            parents for a rename) and the file that left has non-empty durable data, or
+                            parents for a rename) and the file that left has non-empty durable data
+                            (a creation that truncates - open with truncate, fs::write - hides both), or
                         (c) a data sync (sync_all / sync_data / coin) of a file created at a name whose removal
                             is unflushed, or
                         (d) creation with truncation (open with truncate, fs::write) at the old or new name of
@@ -148,13 +149,13 @@ Definition kclasses (d : dworld) (gh : ghost) (o : op) : list known :=
          ++ match o with
             | Open _ p r w a tr c n =>
                 let fresh := match nget (names t) p with None => c || n | _ => false end in
-                kwhen (fresh && leaves_bytes d gh p) NRecreate
+                kwhen (fresh && leaves_bytes d gh p && negb (tr && w && negb n && valid_open r w a tr c n)) NRecreate
                 ++ kwhen (fresh && under_rename gh p && tr && w && valid_open r w a tr c n) NRecreate
                 ++ kwhen (fresh && mem_path p (ggdirs gh)) NKindSwap
                 ++ kwhen (fresh && mem_path p (gstale gh)) NRenameCrossDir
             | Spit p data coin =>
                 let fresh := match nget (names t) p with None => true | _ => false end in
-                kwhen (fresh && (leaves_bytes d gh p || under_rename gh p)) NRecreate
+                kwhen (fresh && under_rename gh p) NRecreate
                 ++ kwhen (fresh && in_unfl gh p && negb (is_nil data) && coin) NRecreate
                 ++ kwhen (fresh && mem_path p (ggdirs gh)) NKindSwap
                 ++ kwhen (fresh && mem_path p (gstale gh)) NRenameCrossDir
